@@ -3,6 +3,7 @@ import GB.C10.Spec
 import GB.C10.Options
 import GB.C10.CreateStatus
 import GB.C10.RespPath
+import GB.C10.TwoTargets
 /-
   C10 driver — judges one case line of harness/c10 (see that file for the line formats).
     tbl <code> => <http>
@@ -765,7 +766,67 @@ def handleRb (i o : List String) : String :=
     else v
   | _ => "BAD rb arity"
 
+/-! ### seq: sequences of calls over two targets through one bridge (GB/C10/TwoTargets.lean) -/
+
+def seqStep? (tok : String) : Option TT.Step :=
+  match tok.splitOn ":" with
+  | [t, r] =>
+    let tgt? : Option TT.Tgt := if t == "A" then some .A else if t == "B" then some .B else none
+    tgt?.bind fun tgt =>
+      if r == "o" then some { tgt := tgt, ok := true, code := 0, dets := [] }
+      else match r.toList with
+        -- 'E' = the target ended the call before the request was written (Send ⇒ io.EOF): same expected response
+        | c :: rest =>
+          if !(c == 'e' || c == 'E') then none else
+          let ds := rest.takeWhile Char.isDigit
+          let tl := rest.dropWhile Char.isDigit
+          match (String.ofList ds).toNat?, tl.mapM (fun c => if c == 'a' then some (some TT.Det.a) else if c == 'b' then some (some TT.Det.b) else if c == '-' then some none else none) with
+          | some code, some dets => if tl.isEmpty then none else some { tgt := tgt, ok := false, code := code, dets := dets.filterMap id }
+          | _, _ => none
+        | _ => none
+  | _ => none
+
+def seqWant (s : TT.Step) : TT.Out → String
+  | .msg => "200/json/M"
+  | .status code dets =>
+    let letters := if dets.isEmpty then "-" else String.ofList (dets.map fun d => match d with | .a => 'a' | .b => 'b')
+    s!"{httpStatusFromCode code}/json/S.{code}.{toHex (ascii s!"boom {code}")}.{letters}"
+  | .fallback code => let _ := s; s!"{httpStatusFromCode code}/plain/T.1"
+
+def handleSeq (i o : List String) : String :=
+  match i with
+  | [mk, ct, steps] =>
+    match kv? "mk" mk, kv? "ct" ct, (kv? "steps" steps).bind (fun s => (s.splitOn ",").mapM seqStep?) with
+    | some _, some _, some steps =>
+      if o.length != steps.length then s!"VIOL seq: {o.length} responses for {steps.length} calls"
+      else
+        -- the specification = each call on its own (history-free); the model of the code = `runSeq false`
+        let spec := steps.map TT.specOut
+        let model := TT.runSeq false { resolver := none } steps
+        let rec go (k : Nat) : List TT.Step → List TT.Out → List String → Option String
+          | s :: ss, w :: ws, g :: gs =>
+            if seqWant s w == g then go (k + 1) ss ws gs
+            else
+              let why := match w with
+                | .status _ _ => if (g.splitOn "/plain/").length == 2 then "error-body-not-a-decodable-Status-although-the-routed-target-knows-every-detail" else "wrong-response"
+                | .msg => "success-not-rendered"
+                | .fallback _ => "wrong-response"
+              let hint := if why.startsWith "error-body" then " (rendering depends on earlier calls / another target)" else ""
+              some s!"{why} call={k + 1}{hint} want={seqWant s w} got={g}"
+          | _, _, _ => none
+        match go 0 steps spec o with
+        | some why => s!"VIOL seq {why}"
+        | none =>
+          if model != spec then "BAD seq model is not history-free (contradicts C10_rendering_history_free)"
+          else s!"OK nt b=seq.{steps.length}"
+    | _, _, _ => "BAD seq parse"
+  | _ => "BAD seq arity"
+
 def handle : Handler
+  | "seq" :: _, "HANG" :: why => s!"VIOL hang {" ".intercalate (why.map (fun h => (parseHex h).map bytesToString |>.getD h))}"
+  | "seq" :: _, "PANIC" :: why => s!"VIOL panic {" ".intercalate (why.map (fun h => (parseHex h).map bytesToString |>.getD h))}"
+  | "seq" :: _, "SETUP" :: why => s!"BAD seq setup {" ".intercalate why}"
+  | "seq" :: i, o => handleSeq i o
   | "rb" :: _, "PANIC" :: why => s!"VIOL panic (response transcoder panicked on this response_body path) {" ".intercalate (why.map (fun h => (parseHex h).map bytesToString |>.getD h))}"
   | "rb" :: i, o => handleRb i o
   | ["tbl", c], [out] => handleTbl c out
